@@ -97,6 +97,7 @@ type RunOutcome struct {
 	Globals  map[string]string // canonical value per global name
 	SP       int
 	Steps    int
+	Slots    []string // canonical value of every global slot up to the last used one ("nil" = never written)
 }
 
 func (o RunOutcome) String() string {
@@ -182,6 +183,15 @@ func RunBytecode(c *Compiled, o RunOpts) RunOutcome {
 	}
 	out.Steps = steps
 	out.SP, _, _ = vm.VerifState()
+	last := -1
+	for i, g := range globals {
+		if g != nil {
+			last = i
+		}
+	}
+	for i := 0; i <= last; i++ {
+		out.Slots = append(out.Slots, Canon(globals[i]))
+	}
 	out.Globals = map[string]string{}
 	for n, i := range idx {
 		if globals[i] != nil {
